@@ -24,6 +24,21 @@ import re
 import copy
 
 
+# Text inserted from data (values, loop items, defaults, included output) is protected so that later
+# passes cannot re-interpret it as template syntax; the outermost translate() restores it.
+_OPEN_GUARD = "\x00{\x00"
+_CLOSE_GUARD = "\x00}\x00"
+_LOOP_LOCALS = ("item", "index", "first", "last")
+
+
+def _protect(text: str) -> str:
+    return text.replace("{{", _OPEN_GUARD).replace("}}", _CLOSE_GUARD)
+
+
+def _unprotect(text: str) -> str:
+    return text.replace(_OPEN_GUARD, "{{").replace(_CLOSE_GUARD, "}}")
+
+
 class CodonType(Enum):
     """Types of codons (template elements) the ribosome can process."""
     VARIABLE = "variable"           # Simple variable substitution
@@ -279,8 +294,11 @@ class Ribosome:
 
         sequence = mrna.sequence
 
-        # Check required variables
+        # Check required variables (loop-local names used only inside each-blocks are bound by the loop)
+        outside_loops = re.sub(r'\{\{#each\s+\w+\}\}.*?\{\{/each\}\}', '', sequence, flags=re.DOTALL)
         for var_name in mrna.get_required_variables():
+            if var_name in _LOOP_LOCALS and f"{{{{{var_name}}}}}" not in outside_loops:
+                continue
             if var_name not in context:
                 msg = f"Missing required variable: {var_name}"
                 if self.strict:
@@ -288,17 +306,24 @@ class Ribosome:
                     raise ValueError(msg)
                 warnings.append(msg)
 
-        # Process conditionals first
-        sequence = self._process_conditionals(sequence, context)
+        self._depth = getattr(self, "_depth", 0) + 1
+        try:
+            # Process conditionals first
+            sequence = self._process_conditionals(sequence, context)
 
-        # Process loops
-        sequence = self._process_loops(sequence, context)
+            # Process loops
+            sequence = self._process_loops(sequence, context)
 
-        # Process includes
-        sequence = self._process_includes(sequence, context)
+            # Process includes
+            sequence = self._process_includes(sequence, context)
 
-        # Process variable substitutions
-        sequence = self._process_variables(sequence, context, warnings)
+            # Process variable substitutions
+            sequence = self._process_variables(sequence, context, warnings)
+        finally:
+            self._depth -= 1
+
+        if self._depth == 0:
+            sequence = _unprotect(sequence)
 
         return Protein(
             sequence=sequence,
@@ -352,9 +377,9 @@ class Ribosome:
             if var_name in context:
                 value = context[var_name]
                 if filter_name in self.filters:
-                    return self.filters[filter_name](value)
+                    return _protect(self.filters[filter_name](value))
                 warnings.append(f"Unknown filter: {filter_name}")
-                return str(value)
+                return _protect(str(value))
             return match.group(0)
 
         result = re.sub(r'\{\{(\w+)\|(\w+)\}\}', replace_filtered, result)
@@ -377,14 +402,14 @@ class Ribosome:
             value_or_default = match.group(2)
             if value_or_default not in self.filters:
                 if var_name in context:
-                    result = result.replace(match.group(0), str(context[var_name]))
+                    result = result.replace(match.group(0), _protect(str(context[var_name])))
                 else:
-                    result = result.replace(match.group(0), value_or_default)
+                    result = result.replace(match.group(0), _protect(value_or_default))
 
         # Optional variables: {{?name}}
         def replace_optional(match: re.Match) -> str:
             var_name = match.group(1)
-            return str(context.get(var_name, ""))
+            return _protect(str(context.get(var_name, "")))
 
         result = re.sub(r'\{\{\?(\w+)\}\}', replace_optional, result)
 
@@ -392,7 +417,7 @@ class Ribosome:
         def replace_simple(match: re.Match) -> str:
             var_name = match.group(1)
             if var_name in context:
-                return str(context[var_name])
+                return _protect(str(context[var_name]))
             warnings.append(f"Unbound variable: {var_name}")
             return match.group(0)
 
@@ -492,7 +517,7 @@ class Ribosome:
                 # Process the content with loop context
                 part = content
                 for key, value in loop_context.items():
-                    part = part.replace(f"{{{{{key}}}}}", str(value))
+                    part = part.replace(f"{{{{{key}}}}}", _protect(str(value)))
 
                 output_parts.append(part)
 
